@@ -3,6 +3,10 @@
 Cases: random worlds (attrs classes / dataclasses incl. recursive ones, enums) x types to depth 3 that BOTH converter
 classes support (`gen.supported` for both) x conforming values x {valid, mutated, junk} payloads x
 {dict, tuple strategy} x {detailed, fast validation} (+ prefer_attrib_converters on worlds with attrs field converters).
+Worlds also hold class HIERARCHIES (a class derived from an earlier one; the base is used first, then the derived
+class), classes whose annotations are all strings (PEP 563), and attrs classes with two attributes of one type exactly
+one of which has an attrs converter; which engine meets a type first is drawn per case (what one engine leaves behind on
+a class must not change what the other does with it).
 
 Implementation observable I: outcome (ok value / raised) of `structure(payload, T)` on a `Converter` and on a
 `BaseConverter` built with the same options, and `unstructure(x, unstructure_as=T)` on both.
@@ -202,7 +206,10 @@ def commonise_world(w):
 
 def my_worlds(chk, drv, n_worlds):
     """like streams.worlds; 3 worlds in 4 hold attrs classes / dataclasses only and are commonised"""
-    G = gen.Gen(chk.rng, unions=True, nt=True, coercible=True)
+    # hierarchies: derived classes and classes with stringified annotations; twin_fields: two attributes of one type,
+    # one of them with an attrs converter (the `prefer_attrib_converters` cases below need them to tell the attribute's
+    # handler from the type's)
+    G = gen.Gen(chk.rng, unions=True, nt=True, coercible=True, hierarchies=True, twin_fields=True)
     made = attempts = 0
     while made < n_worlds and attempts < n_worlds * 3:
         attempts += 1
@@ -219,6 +226,38 @@ def my_worlds(chk, drv, n_worlds):
             continue
         made += 1
         yield G, S, w
+
+
+def hierarchy_values(chk, G, S, w):
+    """worlds with derived classes: additional cases that use the BASE class first and then the class derived from it
+    (the way a program would), so that what the first use leaves behind on the base is there when the subclass is met"""
+    subs = [ci for ci, c in enumerate(w["classes"]) if c.get("base") is not None]
+    chk.rng.shuffle(subs)
+    for ci in subs[:2]:
+        for k in (w["classes"][ci]["base"], ci):
+            ty = ("cls", k) if chk.rng.random() < 0.7 else (chk.rng.choice(["list", "opt"]), ("cls", k))
+            x0 = G.value(w, ty, 3, any_stable=False)
+            try:
+                xv, x = S.realise(x0)
+            except Exception:  # noqa: BLE001
+                chk.note("value-not-realisable")
+                continue
+            if gen.lookalike_hazard(x):
+                chk.unmodelled += 1
+                continue
+            chk.note("hierarchy-case:" + ("base" if k != ci else "derived"))
+            # the derived class is mostly met by the interpretive engine first (the base by either)
+            yield ty, x, xv, (chk.rng.random() < 0.75 if k == ci else None)
+
+
+def world_features(chk, w):
+    for c in w["classes"]:
+        if c.get("base") is not None:
+            chk.note("class:derived" + (":string-annotations" if c.get("strann") else ""))
+        elif c.get("strann"):
+            chk.note("class:string-annotations")
+        if c.get("twin"):
+            chk.note("class:same-typed-attributes-one-with-converter")
 
 
 def has_idconv(w) -> bool:
@@ -378,8 +417,16 @@ def run(chk: framework.Check):
                 pairs[k] = make_pair(tup, detailed, pac)
             return pairs[k]
 
-        for ty, x, xv in streams.typed_values(chk, G, S, w, n_types=4, n_values=1, any_stable=False):
+        world_features(chk, w)
+        import itertools
+        for ty, x, xv, first in itertools.chain(
+                hierarchy_values(chk, G, S, w),
+                ((a, b, c, None) for a, b, c in streams.typed_values(chk, G, S, w, n_types=4, n_values=1, any_stable=False))):
             ty = commonise_type(ty) if chk.rng.random() < 0.75 else ty
+            # which converter class meets the type (and its classes) FIRST: what one engine leaves behind on a class
+            # (resolved annotations, ...) must not change what the other does with it
+            base_first = chk.rng.random() < 0.5 if first is None else first
+            chk.note("first-engine:" + ("BaseConverter" if base_first else "Converter"))
             for tup in (False, True):
                 if not common(w, ty, tup, x, S):
                     chk.note("outside-common-support")
@@ -390,8 +437,12 @@ def run(chk: framework.Check):
                 cB = dict(cG, gen=False)
                 # ================================================= unstructuring
                 convG, convB = pair(tup, True, False)
-                uG = S.impl_un(cG, ty, x, conv=convG, x=xv)
-                uB = S.impl_un(cB, ty, x, conv=convB, x=xv)
+                if base_first:
+                    uB = S.impl_un(cB, ty, x, conv=convB, x=xv)
+                    uG = S.impl_un(cG, ty, x, conv=convG, x=xv)
+                else:
+                    uG = S.impl_un(cG, ty, x, conv=convG, x=xv)
+                    uB = S.impl_un(cB, ty, x, conv=convB, x=xv)
                 ucase = {"world": w, "ty": ty, "x": x, "op": "un", "tuple": tup}
                 chk.count("un/" + sname + terms.ty_sx(ty) + terms.canon_sx(x), nontrivial=not isinstance(ty, str),
                           sample={"op": "unstructure", "strategy": sname, "type": terms.ty_sx(ty), "value": terms.canon_sx(x),
@@ -450,8 +501,12 @@ def run(chk: framework.Check):
                             convG, convB = pair(tup, detailed, pac)
                             cg = dict(cG, detailed=detailed)
                             cb = dict(cB, detailed=detailed)
-                            rG = S.impl_st(cg, ty, p, conv=convG, payload=pv)
-                            rB = S.impl_st(cb, ty, p, conv=convB, payload=pv)
+                            if base_first:
+                                rB = S.impl_st(cb, ty, p, conv=convB, payload=pv)
+                                rG = S.impl_st(cg, ty, p, conv=convG, payload=pv)
+                            else:
+                                rG = S.impl_st(cg, ty, p, conv=convG, payload=pv)
+                                rB = S.impl_st(cb, ty, p, conv=convB, payload=pv)
                             oG, oB = outcome(rG), outcome(rB)
                             case = {"world": w, "ty": ty, "payload": p, "op": "st", "tuple": tup, "detailed": detailed, "pac": pac}
                             chk.count("st/%s/%d%d" % (sname, detailed, pac) + terms.ty_sx(ty) + terms.canon_sx(p),
